@@ -174,6 +174,8 @@ pub fn run_fault(
         wd: Arc::clone(wd),
         scan_limit: 10_000,
         walk_rng: None,
+        open_matrix: false,
+        opened_ok: 0,
     };
     let mut status = "ok".to_string();
     let mut errors_seen = 0;
